@@ -2,10 +2,10 @@
 SPECIFICATION Spec
 CONSTANTS
  KindOf = 0
- Procs = {1, 2, 3}
+ Procs = {1, 2}
  OpProcs = {1}
  TxProcs = {2}
- RemoteProcs = {3}
+ RemoteProcs = {}
  Calls = 1
  TxLen = 2
  Guarded = TRUE
@@ -16,6 +16,5 @@ INVARIANT NoLostUnlock
 INVARIANT NoLostUpdate
 INVARIANT QueuedOnce
 INVARIANT TxContiguous
-VIEW StateView
-ACTION_CONSTRAINT EdgeDump
+ACTION_CONSTRAINT FinalDump
 CHECK_DEADLOCK FALSE
